@@ -519,6 +519,14 @@ class Interp(OpsMixin, CallMixin, MatchMixin, SumsMixin):
                     self.assign(g.target, it.at(i), e2)
                     return self.eval(n.elt, e2)
                 return Stacked(it.n, elem, tag="comp"), True
+            if type(it).__name__ == "SymMapView" and it.kind == "values" and getattr(self, "map_image", None):
+                g = n.generators[0]
+
+                def elem_m(x):
+                    e2 = env.child()
+                    self.assign(g.target, x, e2)
+                    return self.eval(n.elt, e2)
+                return self.map_image(it.m, elem_m), True
             return it, False
         return None, False
 
